@@ -338,6 +338,15 @@ def _is_y_copy(root, y):
     return isinstance(root, Num) and isinstance(y, Num) and root.struct_eq(y)
 
 
+def check_dtype(ctx, rule='C01.7'):
+    from .common import dt_function, DT_RULE
+    ctx.rule(rule, DT_RULE)
+    n = dt_function(ctx, rule, MATCH + '_interval_integral_matching_stretch', {'x': 'x', 'y': 'x'}, consts={'fixed_points_indices_in_x': arr_param('FI', kind='list')},
+                    inline=inline_except(*PUBLIC_ANCHORS))
+    n += dt_function(ctx, rule, MATCH + '_integral_matching_stretch', {'x': 'x', 'y': 'x'})
+    ctx.floor(rule, n, 1, 'in-place stores with a known buffer element type in the matching code')
+
+
 def run(ctx):
     ctx.rule('C01.1', 'every library reference reachable from the matching entry points exists in the installed NumPy/SciPy and its arguments bind to the installed signature')
     roots = [ctx.prog.func(PUBLIC), ctx.prog.func('traffic_weaver.weaver.Weaver.integral_match')]
@@ -355,6 +364,7 @@ def run(ctx):
     from . import c10
     c10.check_dispatcher(ctx)       # fixed points are selected by the neighbour search (structural table only; C10)
     c10.check_scans(ctx, fill_true_only=True)
+    check_dtype(ctx)
     ctx.trust('field axioms over the reals; Sum is linear; floating-point rounding not modelled',
               'installed numpy/scipy namespaces and signatures (inspect.signature)')
     ctx.assume('strictly increasing x; selected fixed points are distinct and leave an interior sample (property precondition)',
